@@ -48,7 +48,30 @@ pub fn run(ctx: &mut Ctx) {
         ctx.nontrivial_hash(pl.problem.hash() ^ case);
         ctx.bump("N");
         ctx.bump(&format!("status_{}", status_name(res.status)));
-        let kinds = pl.problem.cone_kinds();
+        // strata: one per cone kind present, plus a few conjunctions of structural features (a regression confined to
+        // "linear objective AND a sparse-expanded cone" is invisible in every single-feature stratum)
+        let mut kinds: Vec<String> = pl.problem.cone_kinds().iter().map(|k| k.to_string()).collect();
+        {
+            use vkit::cones::ConeT;
+            let lin = pl.problem.P.nnz() == 0;
+            let sparse = pl.problem.cones.iter().any(|c| matches!(c, ConeT::SecondOrderConeT(d) if *d > 4) || matches!(c, ConeT::GenPowerConeT(_, _)));
+            let big = tag.starts_with("mag[0,3]") || tag.starts_with("mag[-2,2]");
+            if lin {
+                kinds.push("linobj".into());
+            }
+            if sparse {
+                kinds.push("sparsecone".into());
+            }
+            if lin && sparse {
+                kinds.push("linobj+sparsecone".into());
+            }
+            if lin && sparse && big {
+                kinds.push("linobj+sparsecone+bigdata".into());
+            }
+            if !lin && sparse {
+                kinds.push("quadobj+sparsecone".into());
+            }
+        }
         let it = res.iterations as u64;
         if res.status == SolverStatus::Solved {
             ctx.bump("solved");
